@@ -109,53 +109,70 @@ def BoFFixed (σ : UInt8 → UInt8) : BoF → Prop
   | .filler f => f.map σ = f
   | .bound b => ∀ f, b.fallback = some f → f.map σ = f
 
-/-- every literal text of the options is fixed by `σ`; no regex, no JSON, not `-c` -/
+/-- the options with the delimiter renamed by `σ` and the terminator replaced -/
+@[reducible] def Opt.mapLit (σ : UInt8 → UInt8) (e : EOL) (o : Opt) : Opt :=
+  { o with delimiter := o.delimiter.map σ, eol := e }
+
+/-- every literal text of the options other than the delimiter is fixed by `σ`, the regex (if
+    any) finds the same matches in a text and in its `σ`-image, and `--json` is off -/
 structure OptFixed (σ : UInt8 → UInt8) (o : Opt) : Prop where
-  delimiter : o.delimiter.map σ = o.delimiter
   replace : ∀ r, o.replaceDelimiter = some r → r.map σ = r
   fallbackOob : ∀ f, o.fallbackOob = some f → f.map σ = f
   bounds : ∀ b ∈ o.bounds.list, BoFFixed σ b
-  noRegex : o.regexBag = none
+  regex : ∀ bag, o.regexBag = some bag →
+    ∀ l : Bytes, bag.normal (l.map σ) = bag.normal l ∧ bag.greedy (l.map σ) = bag.greedy l
   noJson : o.json = false
-  notChars : o.boundsType ≠ .characters
 
 theorem maybeReplaceDelimiter_map (hσ : Function.Injective σ) {o : Opt} (ho : OptFixed σ o)
-    (text : Bytes) (c : Bool) :
-    maybeReplaceDelimiter (text.map σ) o c = (maybeReplaceDelimiter text o c).map σ := by
+    (e : EOL) (text : Bytes) (c : Bool) :
+    maybeReplaceDelimiter (text.map σ) (o.mapLit σ e) c =
+      (maybeReplaceDelimiter text o c).map σ := by
   unfold maybeReplaceDelimiter
-  rw [ho.noRegex]
+  simp only [Opt.mapLit]
   split
   · rfl
   · cases h : o.replaceDelimiter with
     | none => rfl
     | some nd =>
-      have := replaceAll_map hσ text o.delimiter nd
-      rw [ho.delimiter, ho.replace nd h] at this
-      simpa using this
+      cases hb : o.regexBag with
+      | none =>
+        have := replaceAll_map hσ text o.delimiter nd
+        rw [ho.replace nd h] at this
+        simpa using this
+      | some bag =>
+        simp only
+        split
+        · rfl
+        · have := replaceMatches_map σ text nd (bag.normal text) 0
+          rw [ho.replace nd h] at this
+          rw [(ho.regex bag hb text).1, this]
 
 theorem joiner_fixed {o : Opt} (ho : OptFixed σ o) :
-    (o.replaceDelimiter.getD o.delimiter).map σ = o.replaceDelimiter.getD o.delimiter := by
+    (o.replaceDelimiter.getD o.delimiter).map σ = o.replaceDelimiter.getD (o.delimiter.map σ) := by
   cases h : o.replaceDelimiter with
-  | none => simpa using ho.delimiter
+  | none => simp
   | some r => simpa using ho.replace r h
 
-theorem outputBof_map (hσ : Function.Injective σ) {o : Opt} (ho : OptFixed σ o)
+theorem outputBof_map (hσ : Function.Injective σ) {o : Opt} (ho : OptFixed σ o) (e : EOL)
     (line : Bytes) (fields : List Range) (n : Nat) (c : Bool) (bof : BoF) (hb : BoFFixed σ bof) :
-    outputBof (line.map σ) fields n o c bof =
+    outputBof (line.map σ) fields n (o.mapLit σ e) c bof =
       (outputBof line fields n o c bof).mapOut (List.map σ) := by
   cases bof with
   | filler f => simp only [outputBof, Run.mapOut_ok]; rw [show f.map σ = f from hb]
   | bound b =>
-    have hj : ∀ x : Bool, (if x then Run.ok (o.replaceDelimiter.getD o.delimiter) else Run.empty) =
+    have hj : ∀ x : Bool,
+        (if x then Run.ok (o.replaceDelimiter.getD (o.delimiter.map σ)) else Run.empty) =
         (if x then Run.ok (o.replaceDelimiter.getD o.delimiter) else Run.empty).mapOut (List.map σ) := by
       intro x; cases x
       · rfl
       · simp [joiner_fixed ho]
-    simp only [outputBof, ho.noJson, writeMaybeAsJson, List.length_map]
+    have hm := maybeReplaceDelimiter_map hσ ho e
+    simp only [Opt.mapLit] at hm
+    simp only [outputBof, Opt.mapLit, ho.noJson, writeMaybeAsJson, List.length_map]
     split
     · split
       · split
-        · rw [Run.mapOut_seq, ← hj, slice_map, maybeReplaceDelimiter_map hσ ho]
+        · rw [Run.mapOut_seq, ← hj, slice_map, hm]
           simp
         · rfl
       · rfl
@@ -170,16 +187,16 @@ theorem outputBof_map (hσ : Function.Injective σ) {o : Opt} (ho : OptFixed σ 
           rw [Run.mapOut_seq, ← hj, Run.mapOut_ok, ho.fallbackOob f hoob]
         | none => rfl
 
-theorem outputLoop_map (hσ : Function.Injective σ) {o : Opt} (ho : OptFixed σ o)
+theorem outputLoop_map (hσ : Function.Injective σ) {o : Opt} (ho : OptFixed σ o) (e : EOL)
     (line : Bytes) (fields : List Range) (n : Nat) (c : Bool) :
     ∀ (l : List BoF), (∀ b ∈ l, BoFFixed σ b) →
-      outputLoop (line.map σ) fields n o c l =
+      outputLoop (line.map σ) fields n (o.mapLit σ e) c l =
         (outputLoop line fields n o c l).mapOut (List.map σ)
   | [], _ => rfl
   | bof :: t, h => by
     simp only [outputLoop]
-    rw [Run.mapOut_seq, outputBof_map hσ ho _ _ _ _ _ (h bof (by simp)),
-      outputLoop_map hσ ho line fields n c t (fun b hb => h b (by simp [hb]))]
+    rw [Run.mapOut_seq, outputBof_map hσ ho e _ _ _ _ _ (h bof (by simp)),
+      outputLoop_map hσ ho e line fields n c t (fun b hb => h b (by simp [hb]))]
 
 theorem markLast_fixed : ∀ (l l' : List BoF), markLast l = some l' →
     (∀ b ∈ l, BoFFixed σ b) → ∀ b ∈ l', BoFFixed σ b
@@ -257,12 +274,41 @@ theorem complementList_fixed (l : List BoF) (n : Nat) (bl : UserBoundsList)
     obtain ⟨a, ha, hb⟩ := hb
     exact complementBof_fixed n a (hl a ha) b hb
 
-theorem emitRecord_map (hσ : Function.Injective σ) {o : Opt} (ho : OptFixed σ o)
+theorem unpackBof_fixed (n : Nat) (b : BoF) (hb : BoFFixed σ b) :
+    ∀ x ∈ unpackBof n b, BoFFixed σ x := by
+  cases b with
+  | filler f => simpa [unpackBof] using hb
+  | bound u =>
+    simp only [unpackBof, UserBounds.unpack]
+    cases u.tryIntoRange n with
+    | none =>
+      intro x hx
+      simp only [List.map_cons, List.map_nil, List.mem_singleton] at hx
+      subst hx
+      exact hb
+    | some r =>
+      intro x hx
+      simp only [List.mem_map] at hx
+      obtain ⟨y, hy, rfl⟩ := hx
+      obtain ⟨i, _, rfl⟩ := hy
+      intro f hf
+      simp [UserBounds.single] at hf
+
+theorem unpackList_fixed (l : List BoF) (n : Nat) (bl : UserBoundsList)
+    (h : unpackList l n = .ok bl) (hl : ∀ b ∈ l, BoFFixed σ b) :
+    ∀ b ∈ bl.list, BoFFixed σ b := by
+  unfold unpackList at h
+  refine fromVec_fixed _ bl h ?_
+  intro b hb
+  simp only [List.mem_flatMap] at hb
+  obtain ⟨a, ha, hb⟩ := hb
+  exact unpackBof_fixed n a (hl a ha) b hb
+
+theorem emitRecord_map (hσ : Function.Injective σ) {o : Opt} (ho : OptFixed σ o) (e : EOL)
     (line : Bytes) (fields : List Range) (c : Bool) (eol : Bytes) :
-    emitRecord (line.map σ) fields o c (eol.map σ) =
+    emitRecord (line.map σ) fields (o.mapLit σ e) c (eol.map σ) =
       (emitRecord line fields o c eol).mapOut (List.map σ) := by
-  have hnc : (decide (o.boundsType = .characters)) = false := by simp [ho.notChars]
-  simp only [emitRecord, ho.noJson, hnc, Bool.false_or, Bool.false_and, Bool.false_eq_true,
+  simp only [emitRecord, Opt.mapLit, ho.noJson, Bool.false_or, Bool.false_eq_true,
     if_false, Run.empty_seq, Run.seq_empty]
   split
   · rfl
@@ -270,131 +316,183 @@ theorem emitRecord_map (hσ : Function.Injective σ) {o : Opt} (ho : OptFixed σ
     · rfl
     · rfl
     · rename_i bl hbl
-      rw [Run.mapOut_seq, Run.mapOut_ok]
-      congr 1
-      refine outputLoop_map hσ ho line fields _ c bl.list ?_
-      split at hbl
-      · exact complementList_fixed _ _ _ hbl ho.bounds
-      · cases hbl; exact ho.bounds
+      have hbl' : ∀ b ∈ bl.list, BoFFixed σ b := by
+        split at hbl
+        · exact complementList_fixed _ _ _ hbl ho.bounds
+        · cases hbl; exact ho.bounds
+      split
+      · rfl
+      · rfl
+      · rename_i bl2 hbl2
+        rw [Run.mapOut_seq, Run.mapOut_ok]
+        congr 1
+        refine outputLoop_map hσ ho e line fields _ c bl2.list ?_
+        split at hbl2
+        · exact unpackList_fixed _ _ _ hbl2 hbl'
+        · cases hbl2; exact hbl'
 
-/-- the literal `trim` step of `cut_str` -/
-def litTrim (line : Bytes) (opt : Opt) : Bytes :=
+/-! `cut_str` cut into its stages (same text as the model, only named) -/
+
+/-- the `trim` step -/
+def trimStage (line : Bytes) (opt : Opt) : Bytes :=
   match opt.trim with
-  | some k => trimLiteral line k opt.delimiter
+  | some kind =>
+    match opt.regexBag with
+    | some bag => trimRegex line kind (bag.greedy line)
+    | none => trimLiteral line kind opt.delimiter
   | none => line
 
-/-- `cut_str` after the trim step, for a literal delimiter outside `-c` -/
+/-- the `compress` step: (line, delimiter, build ranges with the regex?, compressed_line_buf,
+    compressed with regex?) -/
+def compressStage (line : Bytes) (opt : Opt) : Option (Bytes × Bytes × Bool × Option Bytes × Bool) :=
+  if opt.compressDelimiter && (opt.boundsType = .fields || opt.boundsType = .lines) then
+    match opt.regexBag with
+    | some bag =>
+      match opt.replaceDelimiter with
+      | some nd => some (replaceMatches line nd 0 (bag.greedy line), nd, false, none, true)
+      | none => none
+    | none =>
+      let c := compressDelimiter line opt.delimiter []
+      some (c, opt.delimiter, false, some c, false)
+  else some (line, opt.delimiter, opt.regexBag.isSome, none, false)
+
+/-- the split step (and the `pop`/`drain` of character mode) -/
+def fieldsStage (line delimiter : Bytes) (useRegex : Bool) (opt : Opt) : List Range :=
+  let fields : List Range :=
+    match useRegex, opt.regexBag with
+    | true, some bag =>
+      fillWithFieldsLocationsUsingRegex [] line
+        ((if opt.greedyDelimiter then bag.greedy else bag.normal) line)
+    | _, _ =>
+      if opt.greedyDelimiter then fillWithFieldsLocationsGreedy [] line delimiter
+      else fillWithFieldsLocations [] line delimiter
+  if opt.boundsType = .characters && fields.length > 2 then fields.dropLast.drop 1 else fields
+
+/-- everything after the trim step -/
 def cutTail (line : Bytes) (opt : Opt) (eol : Bytes) : Run × Option (List Range) × Option Bytes :=
   if line.isEmpty then ((if !opt.onlyDelimited then Run.ok eol else Run.empty), none, none)
-  else if opt.compressDelimiter && (opt.boundsType = .fields || opt.boundsType = .lines) then
-    let c := compressDelimiter line opt.delimiter []
-    let fields :=
-      if opt.greedyDelimiter then fillWithFieldsLocationsGreedy [] c opt.delimiter
-      else fillWithFieldsLocations [] c opt.delimiter
-    (emitRecord c fields opt false eol, some fields, some c)
   else
-    let fields :=
-      if opt.greedyDelimiter then fillWithFieldsLocationsGreedy [] line opt.delimiter
-      else fillWithFieldsLocations [] line opt.delimiter
-    (emitRecord line fields opt false eol, some fields, none)
+    match compressStage line opt with
+    | none => (Run.panic, none, none)
+    | some (line, delimiter, useRegex, buf, compressedWithRegex) =>
+      let fields := fieldsStage line delimiter useRegex opt
+      (emitRecord line fields opt compressedWithRegex eol, some fields, buf)
 
-theorem cutStrCore_eq_cutTail {o : Opt} (h : o.regexBag = none) (hc : o.boundsType ≠ .characters)
-    (line eol : Bytes) : cutStrCore line o eol = cutTail (litTrim line o) o eol := by
-  have hnc : (decide (o.boundsType = .characters)) = false := by simp [hc]
-  unfold cutStrCore cutTail litTrim
-  simp only [h, Option.isSome_none, Bool.false_and, Bool.false_eq_true, if_false, hnc]
-  cases o.trim with
-  | none =>
-    simp only
-    by_cases he : line.isEmpty = true
-    · simp only [he, if_true]
-    · simp only [he, if_false, Bool.false_eq_true]
-      by_cases hsc : (o.compressDelimiter &&
-          (decide (o.boundsType = .fields) || decide (o.boundsType = .lines))) = true
-      · simp only [hsc, if_true]
-      · simp only [hsc, if_false, Bool.false_eq_true]
-  | some k =>
-    simp only
-    generalize trimLiteral line k o.delimiter = ln
-    by_cases he : ln.isEmpty = true
-    · simp only [he, if_true]
-    · simp only [he, if_false, Bool.false_eq_true]
-      by_cases hsc : (o.compressDelimiter &&
-          (decide (o.boundsType = .fields) || decide (o.boundsType = .lines))) = true
-      · simp only [hsc, if_true]
-      · simp only [hsc, if_false, Bool.false_eq_true]
+theorem cutStrCore_eq_stages (line : Bytes) (opt : Opt) (eol : Bytes) :
+    cutStrCore line opt eol =
+      if opt.regexBag.isSome && opt.compressDelimiter && opt.replaceDelimiter.isNone then
+        (Run.fail, none, none)
+      else if opt.regexBag.isSome && opt.join && opt.replaceDelimiter.isNone then
+        (Run.fail, none, none)
+      else cutTail (trimStage line opt) opt eol := rfl
 
-theorem litTrim_map (hσ : Function.Injective σ) {o : Opt} (ho : OptFixed σ o) (line : Bytes) :
-    litTrim (line.map σ) o = (litTrim line o).map σ := by
-  unfold litTrim
+theorem trimStage_map (hσ : Function.Injective σ) {o : Opt} (ho : OptFixed σ o) (e : EOL)
+    (line : Bytes) : trimStage (line.map σ) (o.mapLit σ e) = (trimStage line o).map σ := by
+  unfold trimStage
+  simp only [Opt.mapLit]
   cases o.trim with
   | none => rfl
   | some k =>
-    have := trimLiteral_map hσ line k o.delimiter
-    rw [ho.delimiter] at this
-    exact this
+    cases hb : o.regexBag with
+    | none => exact trimLiteral_map hσ line k o.delimiter
+    | some bag =>
+      simp only
+      rw [(ho.regex bag hb line).2, trimRegex_map]
 
-theorem cutTail_map (hσ : Function.Injective σ) {o : Opt} (ho : OptFixed σ o)
+theorem compressStage_map (hσ : Function.Injective σ) {o : Opt} (ho : OptFixed σ o) (e : EOL)
+    (line : Bytes) :
+    compressStage (line.map σ) (o.mapLit σ e) =
+      (compressStage line o).map fun p =>
+        (p.1.map σ, p.2.1.map σ, p.2.2.1, p.2.2.2.1.map (List.map σ), p.2.2.2.2) := by
+  unfold compressStage
+  simp only [Opt.mapLit]
+  split
+  · cases hb : o.regexBag with
+    | none => simp only [Option.map_some, compressDelimiter_map hσ line o.delimiter [] []]
+    | some bag =>
+      cases hr : o.replaceDelimiter with
+      | none => rfl
+      | some nd =>
+        have := replaceMatches_map σ line nd (bag.greedy line) 0
+        rw [ho.replace nd hr] at this
+        simp only [Option.map_some, (ho.regex bag hb line).2, this, ho.replace nd hr,
+          Option.map_none]
+  · simp only [Option.map_some, Option.map_none]
+
+theorem fieldsStage_map (hσ : Function.Injective σ) {o : Opt} (ho : OptFixed σ o) (e : EOL)
+    (line d : Bytes) (u : Bool) :
+    fieldsStage (line.map σ) (d.map σ) u (o.mapLit σ e) = fieldsStage line d u o := by
+  unfold fieldsStage
+  simp only [Opt.mapLit]
+  cases hb : o.regexBag with
+  | none =>
+    simp only [fillWithFieldsLocationsGreedy_map hσ, fillWithFieldsLocations_map hσ]
+  | some bag =>
+    cases u with
+    | false => simp only [fillWithFieldsLocationsGreedy_map hσ, fillWithFieldsLocations_map hσ]
+    | true =>
+      have : (if o.greedyDelimiter = true then bag.greedy else bag.normal) (line.map σ) =
+          (if o.greedyDelimiter = true then bag.greedy else bag.normal) line := by
+        split
+        · exact (ho.regex bag hb line).2
+        · exact (ho.regex bag hb line).1
+      simp only [this, fillWithFieldsLocationsUsingRegex_map]
+
+theorem cutTail_map (hσ : Function.Injective σ) {o : Opt} (ho : OptFixed σ o) (e : EOL)
     (line eol : Bytes) :
-    cutTail (line.map σ) o (eol.map σ) =
+    cutTail (line.map σ) (o.mapLit σ e) (eol.map σ) =
       ((cutTail line o eol).1.mapOut (List.map σ), (cutTail line o eol).2.1,
         (cutTail line o eol).2.2.map (List.map σ)) := by
-  have hfill : ∀ l : Bytes, fillWithFieldsLocations [] (l.map σ) o.delimiter =
-      fillWithFieldsLocations [] l o.delimiter := by
-    intro l
-    have := fillWithFieldsLocations_map hσ [] l o.delimiter
-    rwa [ho.delimiter] at this
-  have hfillg : ∀ l : Bytes, fillWithFieldsLocationsGreedy [] (l.map σ) o.delimiter =
-      fillWithFieldsLocationsGreedy [] l o.delimiter := by
-    intro l
-    have := fillWithFieldsLocationsGreedy_map hσ [] l o.delimiter
-    rwa [ho.delimiter] at this
-  have hcomp : compressDelimiter (line.map σ) o.delimiter [] =
-      (compressDelimiter line o.delimiter []).map σ := by
-    have := compressDelimiter_map hσ line o.delimiter [] []
-    rwa [ho.delimiter] at this
   unfold cutTail
+  rw [compressStage_map hσ ho]
   simp only [List.isEmpty_map]
   split
-  · split <;> rfl
-  · split
-    · simp only [hcomp, hfill, hfillg, emitRecord_map hσ ho, Option.map_some]
-    · simp only [hfill, hfillg, emitRecord_map hσ ho, Option.map_none]
+  · have : (o.mapLit σ e).onlyDelimited = o.onlyDelimited := rfl
+    rw [this]
+    split <;> rfl
+  · cases compressStage line o with
+    | none => rfl
+    | some p =>
+      obtain ⟨l, d, u, b, c⟩ := p
+      simp only [Option.map_some, fieldsStage_map hσ ho, emitRecord_map hσ ho]
 
-theorem cutStrCore_map (hσ : Function.Injective σ) {o : Opt} (ho : OptFixed σ o)
+theorem cutStrCore_map (hσ : Function.Injective σ) {o : Opt} (ho : OptFixed σ o) (e : EOL)
     (line eol : Bytes) :
-    cutStrCore (line.map σ) o (eol.map σ) =
+    cutStrCore (line.map σ) (o.mapLit σ e) (eol.map σ) =
       ((cutStrCore line o eol).1.mapOut (List.map σ), (cutStrCore line o eol).2.1,
         (cutStrCore line o eol).2.2.map (List.map σ)) := by
-  rw [cutStrCore_eq_cutTail ho.noRegex ho.notChars, cutStrCore_eq_cutTail ho.noRegex ho.notChars,
-    litTrim_map hσ ho, cutTail_map hσ ho]
+  rw [cutStrCore_eq_stages, cutStrCore_eq_stages, trimStage_map hσ ho, cutTail_map hσ ho]
+  have h1 : (o.mapLit σ e).regexBag = o.regexBag := rfl
+  have h2 : (o.mapLit σ e).compressDelimiter = o.compressDelimiter := rfl
+  have h3 : (o.mapLit σ e).replaceDelimiter = o.replaceDelimiter := rfl
+  have h4 : (o.mapLit σ e).join = o.join := rfl
+  rw [h1, h2, h3, h4]
+  split
+  · rfl
+  · split <;> rfl
 
 end general
 
-/-! ### the per-record engine does not look at `opt.eol` (it is handed the terminator) -/
-
-theorem outputBof_eol (e : EOL) (line : Bytes) (fields : List Range) (n : Nat) (o : Opt) (c : Bool)
-    (b : BoF) : outputBof line fields n { o with eol := e } c b = outputBof line fields n o c b := by
-  cases b <;> rfl
-
-theorem outputLoop_eol (e : EOL) (line : Bytes) (fields : List Range) (n : Nat) (o : Opt) (c : Bool) :
-    ∀ l : List BoF, outputLoop line fields n { o with eol := e } c l = outputLoop line fields n o c l
-  | [] => rfl
-  | b :: t => by simp only [outputLoop, outputBof_eol, outputLoop_eol e line fields n o c t]
-
-theorem emitRecord_eol (e : EOL) (line : Bytes) (fields : List Range) (o : Opt) (c : Bool)
-    (eol : Bytes) : emitRecord line fields { o with eol := e } c eol = emitRecord line fields o c eol := by
-  simp only [emitRecord, outputLoop_eol]
-
-theorem cutStrCore_eol (e : EOL) (line : Bytes) (o : Opt) (eol : Bytes) :
-    cutStrCore line { o with eol := e } eol = cutStrCore line o eol := by
-  simp only [cutStrCore, emitRecord_eol]
-
 /-! ### the record loop -/
 
+/-- `-z` given / not given -/
 def Opt.swapped (o : Opt) : Opt := { o with eol := o.eol.swap }
 
-/-- the domain of C11 for the general engine -/
+/-- `-z` given / not given, and LF and NUL exchanged in the delimiter (`-l`: the delimiter *is*
+    the terminator) -/
+def Opt.swappedAll (o : Opt) : Opt := { o with eol := o.eol.swap, delimiter := swap o.delimiter }
+
+/-- the domain of C11 for the general engine, delimiter apart -/
+structure NoLfNulLits (o : Opt) : Prop where
+  replace : ∀ r, o.replaceDelimiter = some r → NoLfNul r
+  fallbackOob : ∀ f, o.fallbackOob = some f → NoLfNul f
+  fillers : ∀ f, BoF.filler f ∈ o.bounds.list → NoLfNul f
+  fallbacks : ∀ b f, BoF.bound b ∈ o.bounds.list → b.fallback = some f → NoLfNul f
+  regex : ∀ bag, o.regexBag = some bag →
+    ∀ l : Bytes, bag.normal (swap l) = bag.normal l ∧ bag.greedy (swap l) = bag.greedy l
+  noJson : o.json = false
+
+/-- the domain of C11 for the general engine (field mode, literal delimiter) -/
 structure NoLfNulOpt (o : Opt) : Prop where
   delimiter : NoLfNul o.delimiter
   replace : ∀ r, o.replaceDelimiter = some r → NoLfNul r
@@ -405,8 +503,15 @@ structure NoLfNulOpt (o : Opt) : Prop where
   noJson : o.json = false
   notChars : o.boundsType ≠ .characters
 
-theorem NoLfNulOpt.fixed {o : Opt} (h : NoLfNulOpt o) : OptFixed swapByte o where
-  delimiter := swap_of_noLfNul h.delimiter
+theorem NoLfNulOpt.lits {o : Opt} (h : NoLfNulOpt o) : NoLfNulLits o where
+  replace := h.replace
+  fallbackOob := h.fallbackOob
+  fillers := h.fillers
+  fallbacks := h.fallbacks
+  regex := by intro bag hb; rw [h.noRegex] at hb; cases hb
+  noJson := h.noJson
+
+theorem NoLfNulLits.fixed {o : Opt} (h : NoLfNulLits o) : OptFixed swapByte o where
   replace := fun r hr => swap_of_noLfNul (h.replace r hr)
   fallbackOob := fun f hf => swap_of_noLfNul (h.fallbackOob f hf)
   bounds := by
@@ -414,32 +519,49 @@ theorem NoLfNulOpt.fixed {o : Opt} (h : NoLfNulOpt o) : OptFixed swapByte o wher
     cases b with
     | filler f => exact swap_of_noLfNul (h.fillers f hb)
     | bound u => exact fun f hf => swap_of_noLfNul (h.fallbacks u f hb hf)
-  noRegex := h.noRegex
+  regex := h.regex
   noJson := h.noJson
-  notChars := h.notChars
 
-theorem cutRecords_swap {o : Opt} (h : NoLfNulOpt o) :
+theorem Opt.swappedAll_eq (o : Opt) : o.swappedAll = o.mapLit swapByte o.eol.swap := rfl
+
+theorem Opt.swappedAll_eq_swapped {o : Opt} (h : NoLfNul o.delimiter) : o.swappedAll = o.swapped := by
+  simp only [Opt.swappedAll, Opt.swapped, swap_of_noLfNul h]
+
+/-- one record (`cut_str` with the terminator of the options) -/
+theorem cutStr_swap {o : Opt} (h : NoLfNulLits o) (r : Bytes) (f f' : List Range) (b b' : Bytes) :
+    (cutStr (swap r) o.swappedAll f b [o.swappedAll.eol.byte]).1 =
+      (cutStr r o f' b' [o.eol.byte]).1.mapOut swap := by
+  have hc := cutStrCore_map swapByte_injective h.fixed o.eol.swap r [o.eol.byte]
+  simp only [List.map_cons, List.map_nil, ← EOL.swap_byte] at hc
+  simp only [cutStr, Opt.swappedAll_eq]
+  exact congrArg (·.1) hc
+
+theorem cutRecords_swap {o : Opt} (h : NoLfNulLits o) :
     ∀ (recs : List Bytes) (f f' : List Range) (b b' : Bytes),
-      cutRecords o.swapped (recs.map swap) f b = (cutRecords o recs f' b').mapOut swap
+      cutRecords o.swappedAll (recs.map swap) f b = (cutRecords o recs f' b').mapOut swap
   | [], _, _, _, _ => rfl
   | r :: t, f, f', b, b' => by
-    have hc := cutStrCore_map swapByte_injective h.fixed r [o.eol.byte]
-    simp only [List.map_cons, List.map_nil, ← EOL.swap_byte] at hc
-    simp only [List.map_cons, cutRecords, cutStr, Opt.swapped, cutStrCore_eol]
-    show (cutStrCore (swap r) o [o.eol.swap.byte]).1.seq _ = _
-    rw [show swap r = r.map swapByte from rfl, hc]
+    have hc := cutStr_swap h r f f' b b'
+    simp only [List.map_cons, cutRecords]
+    rw [hc]
     simp only [swap, Run.mapOut_seq]
     congr 1
     exact cutRecords_swap h t _ _ _ _
 
-/-- **C11, general engine.** -/
-theorem readAndCutStr_swap {o : Opt} (h : NoLfNulOpt o) (input : Bytes) :
-    readAndCutStr o.swapped (swap input) = (readAndCutStr o input).mapOut swap := by
+/-- **C11, general engine**, in the form that also exchanges LF and NUL inside the delimiter (no
+    condition on the delimiter; the regex, if any, must not tell LF from NUL). -/
+theorem readAndCutStr_swapAll {o : Opt} (h : NoLfNulLits o) (input : Bytes) :
+    readAndCutStr o.swappedAll (swap input) = (readAndCutStr o input).mapOut swap := by
   unfold readAndCutStr
-  have : o.swapped.eol.byte = swapByte o.eol.byte := EOL.swap_byte o.eol
+  have : o.swappedAll.eol.byte = swapByte o.eol.byte := EOL.swap_byte o.eol
   rw [this, records_swap]
   exact cutRecords_swap h _ _ _ _ _
 
+/-- **C11, general engine.** -/
+theorem readAndCutStr_swap {o : Opt} (h : NoLfNulOpt o) (input : Bytes) :
+    readAndCutStr o.swapped (swap input) = (readAndCutStr o input).mapOut swap := by
+  rw [← Opt.swappedAll_eq_swapped h.delimiter]
+  exact readAndCutStr_swapAll h.lits input
 
 /-! ## 5. The fast lane (`read_and_cut_text_as_bytes`) -/
 
@@ -630,7 +752,7 @@ structure StreamFixed (σ : UInt8 → UInt8) (o : StreamOpt) : Prop where
   fallbackOob : ∀ f, o.fallbackOob = some f → f.map σ = f
   bounds : ∀ b ∈ o.bounds, BoFFixed σ b
 
-def SState.map (σ : UInt8 → UInt8) (st : SState) : SState := { st with piece := st.piece.map σ }
+@[reducible] def SState.map (σ : UInt8 → UInt8) (st : SState) : SState := { st with piece := st.piece.map σ }
 
 theorem StreamFixed.joiner {o : StreamOpt} (ho : StreamFixed σ o) : σ o.joiner = o.joiner := by
   unfold StreamOpt.joiner
@@ -734,7 +856,7 @@ theorem drop_fixed {o : StreamOpt} (ho : StreamFixed σ o) (i : Nat) :
 theorem endOfRecord_map {o : StreamOpt} (ho : StreamFixed σ o) (e : EOL)
     (he : e.byte = σ o.eol.byte) (st : SState) :
     endOfRecord { o with eol := e } (st.map σ) = (endOfRecord o st).mapOut (List.map σ) := by
-  simp only [endOfRecord, SState.map, printBof_map ho, he]
+  simp only [endOfRecord, printBof_map ho, he]
   cases printBof o st.bofIdx st.currField st.trunc st.piece true with
   | none => rfl
   | some p =>
@@ -779,6 +901,77 @@ theorem streamStep_map (hσ : Function.Injective σ) {o : StreamOpt} (ho : Strea
           | some p => simp only [Option.map_some, Run.mapOut_ok, List.map_nil]
         · simp only [Run.mapOut_empty, List.map_append, List.map_cons, List.map_nil]
 
+theorem streamEof_map {o : StreamOpt} (ho : StreamFixed σ o) (e : EOL)
+    (he : e.byte = σ o.eol.byte) (st : SState) :
+    streamEof { o with eol := e } (st.map σ) = (streamEof o st).mapOut (List.map σ) := by
+  unfold streamEof
+  simp only [he, List.isEmpty_map, printBof_map ho]
+  split
+  · rfl
+  · split
+    · rfl
+    · split
+      · exact endOfRecord_map ho e he st
+      · cases printBof o st.bofIdx st.currField st.trunc st.piece false with
+        | none => rfl
+        | some p =>
+          simp only [Option.map_some, Run.mapOut_seq, Run.mapOut_ok]
+          congr 1
+          exact endOfRecord_map ho e he { st with bofIdx := p.2, trunc := true, piece := [] }
+
+theorem streamRun_map (hσ : Function.Injective σ) {o : StreamOpt} (ho : StreamFixed σ o) (e : EOL)
+    (he : e.byte = σ o.eol.byte) :
+    ∀ (l : List (UInt8 × Bool)) (st : SState),
+      streamRun { o with eol := e } (st.map σ) (l.map fun p => (σ p.1, p.2)) =
+        (streamRun o st l).mapOut (List.map σ)
+  | [], st => streamEof_map ho e he st
+  | (c, last) :: t, st => by
+    simp only [List.map_cons, streamRun, streamStep_map hσ ho e he, Run.mapOut_seq]
+    congr 1
+    exact streamRun_map hσ ho e he t _
+
+theorem tagSegment_map (σ : UInt8 → UInt8) :
+    ∀ s : Bytes, tagSegment (s.map σ) = (tagSegment s).map fun p => (σ p.1, p.2)
+  | [] => rfl
+  | [c] => rfl
+  | c :: d :: t => by
+    have := tagSegment_map σ (d :: t)
+    simp only [List.map_cons] at this
+    simp only [List.map_cons, tagSegment, this]
+
+theorem tagSegments_map (σ : UInt8 → UInt8) (segs : List Bytes) :
+    tagSegments (segs.map (List.map σ)) = (tagSegments segs).map fun p => (σ p.1, p.2) := by
+  simp only [tagSegments, List.flatMap_map, List.map_flatMap, tagSegment_map]
+
 end stream
+
+def StreamOpt.swapped (o : StreamOpt) : StreamOpt := { o with eol := o.eol.swap }
+
+/-- the domain of C11 for `-M` -/
+structure NoLfNulStream (o : StreamOpt) : Prop where
+  delimiter : o.delimiter ≠ 10 ∧ o.delimiter ≠ 0
+  replace : ∀ r, o.replaceDelimiter = some r → r ≠ 10 ∧ r ≠ 0
+  fallbackOob : ∀ f, o.fallbackOob = some f → NoLfNul f
+  fillers : ∀ f, BoF.filler f ∈ o.bounds → NoLfNul f
+  fallbacks : ∀ b f, BoF.bound b ∈ o.bounds → b.fallback = some f → NoLfNul f
+
+theorem NoLfNulStream.fixed {o : StreamOpt} (h : NoLfNulStream o) : StreamFixed swapByte o where
+  delimiter := swapByte_of_ne h.delimiter.1 h.delimiter.2
+  replace := fun r hr => swapByte_of_ne (h.replace r hr).1 (h.replace r hr).2
+  fallbackOob := fun f hf => swap_of_noLfNul (h.fallbackOob f hf)
+  bounds := by
+    intro b hb
+    cases b with
+    | filler f => exact swap_of_noLfNul (h.fillers f hb)
+    | bound u => exact fun f hf => swap_of_noLfNul (h.fallbacks u f hb hf)
+
+/-- **C11, `-M`**: for every read segmentation. -/
+theorem cutBytesStream_swap {o : StreamOpt} (h : NoLfNulStream o) (segs : List Bytes) :
+    cutBytesStream o.swapped (segs.map swap) = (cutBytesStream o segs).mapOut swap := by
+  unfold cutBytesStream
+  have := streamRun_map swapByte_injective h.fixed o.eol.swap (EOL.swap_byte o.eol)
+    (tagSegments segs) {}
+  rw [show (segs.map swap) = segs.map (List.map swapByte) from rfl, tagSegments_map]
+  exact this
 
 end Tuc
